@@ -19,7 +19,7 @@ from fractions import Fraction
 import z3
 
 from . import values as V
-from .values import SymBool, SymInt, SymReal, Unsupported
+from .values import SymBool, SymInt, SymReal, Unsupported, is_sym
 from . import special
 
 
@@ -444,6 +444,20 @@ class Context:
                         ok, detail = None, f"replay raised {type(e).__name__}: {e}\n{traceback.format_exc(limit=4)}"
                     rec["replayed"] = None if ok is None else bool(ok)
                     rec["replay_detail"] = detail
+                elif getattr(self, "harness_ref", None) is not None:
+                    module, hname = self.harness_ref
+                    scenario = {"module": module, "harness": hname, "obligation": oid,
+                                "values": {k: _plain(model_value(m, t)) for k, t in self.symbols.items()}}
+                    rec["scenario"] = scenario
+                    rec["replay_fn"] = "symx.explorer:generic_replay"
+                    try:
+                        ok, detail = generic_replay(scenario)
+                    except BaseException as e:  # never let the replay disturb the exploration
+                        ok, detail = None, f"generic replay raised {type(e).__name__}: {e}"
+                    finally:
+                        V.set_context(self)
+                    rec["replayed"] = None if ok is None else bool(ok)
+                    rec["replay_detail"] = detail
                 else:
                     rec["replayed"] = None
                     rec["replay_detail"] = "no replay available"
@@ -556,8 +570,190 @@ class _ModelView:
 # running one path / a batch of paths
 
 
-def run_path(fn, params, prefix, timeout_ms, seed, known):
+class ReplayDone(BaseException):
+    pass
+
+
+class ReplayStop(BaseException):
+    """the concrete re-execution cannot continue (assumption false on floats, nested enumeration, non-ground term ...)"""
+
+
+class ConcreteContext:
+    """Same interface as Context, but every symbol is the concrete value the solver's model gave it (python float / int / bool), so
+    the harness drives the real code on ordinary numbers with the shims switched off (`concrete`); the target obligation is evaluated
+    on the numbers it produces.  Used as the replay of a counterexample when an obligation has no hand-written replay."""
+
+    concrete = True
+
+    def __init__(self, values, target):
+        self.values = values
+        self.target = target
+        self.counter = {}
+        self.symbols = {}
+        self.missing = []
+        self.hints = []
+        self.trace = []
+        self.results = []
+        self.notes = []
+        self.known = {}
+        self.pc = []
+        self.axioms = []
+        self.apps = {}
+        self.iroots = {}
+        self.axiom_generators = []
+        self.gen_state = {}
+        self.inner_exc = None
+        self.nested_leaves = 0
+        self.target_seen = 0
+        self.failed = None
+        self.inputs = {}
+
+    fresh_name = Context.fresh_name
+
+    def _value(self, name, kind):
+        name = self.fresh_name(name)
+        if name not in self.values:
+            self.missing.append(name)
+            v = 0
+        else:
+            v = self.values[name]
+        if isinstance(v, dict):
+            v = Fraction(v["q"]) if "q" in v else v.get("f", 0)
+        if isinstance(v, str):
+            try:
+                v = Fraction(v)
+            except ValueError:
+                raise ReplayStop(f"model value of {name} is not numeric: {v}")
+        v = kind(v)
+        self.symbols[name] = v
+        self.inputs[name] = v
+        return v
+
+    def real(self, name, lo=None, hi=None, lo_strict=False, hi_strict=False):
+        v = self._value(name, float)
+        if lo is not None and (v < lo or (lo_strict and v == lo)) or hi is not None and (v > hi or (hi_strict and v == hi)):
+            raise ReplayStop(f"{name}={v} outside its declared range after conversion to float")
+        return v
+
+    def int(self, name, lo=None, hi=None):
+        return self._value(name, int)
+
+    def bool(self, name):
+        return self._value(name, bool)
+
+    def truth(self, c):
+        if isinstance(c, SymBool):
+            c = c.t
+        if z3.is_expr(c):
+            v = z3.simplify(c)
+            if z3.is_true(v):
+                return True
+            if z3.is_false(v):
+                return False
+            raise ReplayStop(f"non-ground condition in the concrete re-execution: {str(v)[:120]}")
+        try:
+            return bool(c)
+        except ValueError:
+            import numpy as np
+
+            return bool(np.all(c))
+
+    def assume(self, c):
+        if not self.truth(c):
+            raise ReplayStop("a harness assumption is false on the float values of the model")
+
+    assume_term = assume
+
+    def axiom(self, t):
+        pass
+
+    def axiom_once(self, key, t):
+        pass
+
+    def register_app(self, *a, **k):
+        pass
+
+    def instantiate(self):
+        pass
+
+    def decide(self, t):
+        return self.truth(t)
+
+    def decide_int(self, t, soft=False):
+        if is_sym(t):
+            v = V.concrete_value(z3.simplify(t.t))
+            if v is None:
+                raise ReplayStop("non-ground integer in the concrete re-execution")
+            return int(v)
+        return int(t)
+
+    def enumerate(self, fn, max_leaves=2000):
+        raise ReplayStop("nested enumeration (measure obligations) has no generic concrete re-execution")
+
+    def check_sat(self, *a, **k):
+        raise ReplayStop("solver query inside the harness")
+
+    def report(self, *a, **k):
+        pass
+
+    def prove(self, oid, goal, info=None, replay=None, regions=None, timeout_ms=None):
+        if oid != self.target:
+            return True
+        self.target_seen += 1
+        if not self.truth(goal):
+            self.failed = info or {}
+            raise ReplayDone()
+        return True
+
+
+def _plain(v):
+    if isinstance(v, Fraction):
+        return {"q": str(v)}
+    return v
+
+
+def generic_replay(sc):
+    """Re-run harness `sc["harness"]` of module `sc["module"]` on the real code with every symbol pinned to the model's value."""
+    import importlib
+
+    mod = importlib.import_module(sc["module"])
+    h = None
+    for tier in (sc.get("tier", "quick"), "thorough", "quick"):
+        for cand in mod.harnesses(tier):
+            if cand.name == sc["harness"]:
+                h = cand
+                break
+        if h is not None:
+            break
+    if h is None:
+        return None, f"harness {sc['harness']} not found in {sc['module']}"
+    cctx = ConcreteContext(sc["values"], sc["obligation"])
+    prev = V.get_context()
+    V.set_context(cctx)
+    _clear_rpylib_caches()
+    try:
+        h.fn(cctx, **h.params)
+    except ReplayDone:
+        shown = {k: v for k, v in list(cctx.inputs.items())[:24]}
+        return True, (f"harness {h.name} re-run on the real code with plain python numbers (shims off): obligation {sc['obligation']} is false"
+                      f"{' for ' + str(cctx.failed) if cctx.failed else ''}; inputs {shown}")
+    except (ReplayStop, PathAbort, Unsupported) as e:
+        return None, f"generic concrete re-execution stopped: {type(e).__name__}: {e}"
+    except Exception as e:
+        if isinstance(cctx.inner_exc, BaseException):
+            e = cctx.inner_exc
+        return None, f"generic concrete re-execution raised {type(e).__name__}: {e}\n{traceback.format_exc(limit=5)}"
+    finally:
+        V.set_context(prev)
+        _clear_rpylib_caches()
+    if cctx.target_seen == 0:
+        return None, "generic concrete re-execution never reached the obligation"
+    return False, f"obligation {sc['obligation']} holds on the float values of the model ({cctx.target_seen} evaluation(s))"
+
+
+def run_path(fn, params, prefix, timeout_ms, seed, known, harness_ref=None):
     ctx = Context(prefix=prefix, timeout_ms=timeout_ms, seed=seed, known=known)
+    ctx.harness_ref = harness_ref
     V.set_context(ctx)
     _clear_rpylib_caches()
     status = "ok"
@@ -587,14 +783,14 @@ def run_path(fn, params, prefix, timeout_ms, seed, known):
     return ctx, status, err
 
 
-def explore_batch(fn, params, prefixes, batch, timeout_ms, seed, known, deadline):
+def explore_batch(fn, params, prefixes, batch, timeout_ms, seed, known, deadline, harness_ref=None):
     """DFS from the given prefixes for at most `batch` paths; returns plain data."""
     stack = [list(p) for p in prefixes]
     out = {"paths": 0, "nontrivial_paths": 0, "records": [], "errors": [], "queries": 0, "solver_s": 0.0,
            "leftover": [], "samples": [], "statuses": {}}
     while stack and out["paths"] < batch and time.time() < deadline:
         prefix = stack.pop()
-        ctx, status, err = run_path(fn, params, prefix, timeout_ms, seed, known)
+        ctx, status, err = run_path(fn, params, prefix, timeout_ms, seed, known, harness_ref)
         out["paths"] += 1
         out["statuses"][status] = out["statuses"].get(status, 0) + 1
         if ctx.twosided > 0 or any(isinstance(d, bool) for d in ctx.trace):
